@@ -49,8 +49,8 @@ def plan(tier):
         "shards": 16,
         "budget_s": 35 if quick else 600,
         "timeout_s": 600 if quick else 3000,
-        # measured on a machine loaded by 8 other builders (load average 60): 60..120 per quick run
-        "min_nontrivial": 12 if quick else 60,
+        # measured on a machine loaded by 8 other builders (load average 60..150): 19..145 per quick run
+        "min_nontrivial": 8 if quick else 60,
         "required_counters": ["job_tokens_checked", "dir_exists_checked", "registration_checked",
                               "injectivity_checked", "jobs_on_shell_remote", "jobs_on_local",
                               "jobs_multi_location", "jobs_with_fixed_dir", "jobs_without_fixed_dir"],
